@@ -903,6 +903,29 @@ func (e *Env) call(x ECall) Binding {
 			evalFail("iterkey outside a function")
 		}
 		return e.fr.iterKey(x, e)
+	case "iterposof":
+		// iterposof(k, key): the position of key in the iteration order of the map range loop[k]
+		if e.fr == nil || len(x.Args) != 2 {
+			evalFail("iterposof(loop, key) inside a function")
+		}
+		it := e.fr.iterOfLoop(ECall{x.Fun, x.Args[:1]}, e)
+		k := e.eval(x.Args[1])
+		return Binding{app(SInt, it.pos, k.T), types.Typ[types.Int]}
+	case "constmap":
+		// constmap(m, v): the map of m's type that holds v for every key
+		a, v := arg(0), arg(1)
+		return Binding{Term{fmt.Sprintf("((as const %s) %s)", a.T.Sort, v.T.S), a.T.Sort}, a.Ty}
+	case "iterdom":
+		// iterdom(k, key): key belongs to the domain snapshot taken when the map range loop[k] began
+		if e.fr == nil {
+			evalFail("iterdom outside a function")
+		}
+		if len(x.Args) != 2 {
+			evalFail("iterdom(loop, key)")
+		}
+		it := e.fr.iterOfLoop(ECall{x.Fun, x.Args[:1]}, e)
+		k := e.eval(x.Args[1])
+		return Binding{sel(it.dom0, k.T, SBool), types.Typ[types.Bool]}
 	}
 	if sf, ok := c.V.CS.Specs[x.Fun]; ok && sf.Macro {
 		// macro: the body is evaluated in the current state with the parameters bound
